@@ -155,7 +155,7 @@ class Session:
             rec.exc_type = type(e).__name__
             rec.exc_msg = str(e)[:300]
             rec.exc_origin = engine_g.exc_origin(e)
-            rec.injected = isinstance(e, faults_mod.InjectedObjectiveFault) or "injected failure of objective" in str(e)
+            rec.injected = faults_mod.is_injected(e)
         finally:
             sim.entropy_label = None
             self.cur_opt, self.cur = None, None
